@@ -29,6 +29,10 @@ void inst(gray8_view_t const& a, gray8_view_t const& b, rgb8_view_t const& c, rg
   detail::convolve_1d<gray32f_pixel_t>(a, k, b);
   view_multiplies_scalar<gray32f_pixel_t>(a, 0.5f, b); view_multiplies_scalar<rgb32f_pixel_t>(c, 0.5f, d);
   detail::kernel_2d<float> k2(3, 1, 1); detail::convolve_2d(a, k2, b); detail::convolve_2d(c, k2, d);
+  detail::kernel_2d<float> const& c2 = k2; detail::kernel_2d<float> k3(k2); k3 = k2;
+  (void)k2.center_x(); (void)k2.center_y(); (void)c2.center_x(); (void)c2.center_y(); (void)c2.left_size(); (void)c2.right_size(); (void)c2.upper_size(); (void)c2.lower_size();
+  detail::kernel_2d_fixed<float, 3> f2(1, 1); detail::kernel_2d_fixed<float, 3> const& cf2 = f2; (void)f2.center_x(); (void)f2.center_y(); (void)cf2.center_x(); (void)cf2.center_y();
+  kernel_1d<float> const& ck = k; (void)k.center(); (void)ck.center();
 }
 '''
 
@@ -41,7 +45,8 @@ def run(rep):
     d = C.astdump(src, os.path.join(wd, "c15.json"),
                   ["^boost::gil::(correlate|convolve)_(rows|cols)(_fixed)?$", "^boost::gil::detail::(correlate_rows_impl|convolve_1d|convolve_2d|convolve_2d_impl)$",
                    "^boost::gil::(view_multiplies_scalar|correlate_pixels_n|correlate_pixels_k)$",
-                   "^boost::gil::reverse_kernel$", "^boost::gil::detail::kernel_1d_adaptor::(left_size|right_size)$"])
+                   "^boost::gil::reverse_kernel$", "^boost::gil::detail::kernel_1d_adaptor::(left_size|right_size)$",
+                   "^boost::gil::detail::kernel_(1d|2d)_adaptor::(center_x|center_y|center|upper_size|lower_size|kernel_2d_adaptor|operator=)$"])
     fns = d["functions"]
     spec = json.load(open(os.path.join(C.SPEC, "c15_convolve.json")))
     rep.units.append("c15_driver.cpp: %d instantiated functions" % len(fns))
@@ -100,6 +105,7 @@ def run(rep):
             else:
                 rep.violation("V2-kernel", "V2:reverse_kernel", R.fn_where(f), {"assignments": asg, "reverse": rev, "returns": rets})
     rep.floor("obligations:V2", 3)
+    kernel_2d_rule(rep, fns)
     # ---- V3 correlate_rows_impl
     rep.rule("V3 correlate_rows_impl: options exhaustive; buffer sizes; correlator ranges; destination fills only under output_zero; padding sources")
     n_impl = 0
@@ -336,6 +342,58 @@ def first_targ(full, name):
             break
         k += 1
     return full[j:k].strip()
+
+
+def kernel_2d_rule(rep, fns):
+    """V6: the 2-D kernel's centre bookkeeping, const and non-const overloads alike"""
+    rep.rule("V6 kernel_2d_adaptor: center_x()/left_size() read center_.x and center_y()/upper_size() read center_.y in every overload (const and non-const); "
+             "right_size()/lower_size() == size() - centre - 1; constructors store (center_x, center_y) into (center_.x, center_.y); copy and assignment keep x and y apart; "
+             "kernel_1d_adaptor::center() reads center_ in both overloads")
+    sz = Poly.atom("this.size()")
+    want = {"center_x": Poly.atom("center_.x"), "left_size": Poly.atom("center_.x"), "center_y": Poly.atom("center_.y"), "upper_size": Poly.atom("center_.y"),
+            "right_size": sz - Poly.atom("center_.x") - Poly.const(1), "lower_size": sz - Poly.atom("center_.y") - Poly.const(1), "center": Poly.atom("center_")}
+    seen = set()
+    for f in fns:
+        cls = f.get("cls", "")
+        short = f["name"].split("::")[-1]
+        m = re.match(r"boost::gil::detail::kernel_(1d|2d)_adaptor<(.*)>$", cls)
+        if not m:
+            continue
+        core = "fixed" if "std::array" in m.group(2) else "dynamic"
+        if m.group(1) == "2d" and short in want and short != "center" or (m.group(1) == "1d" and short == "center"):
+            tag = (m.group(1), core, short, bool(f.get("const")))
+            if tag in seen:
+                continue
+            seen.add(tag)
+            rets = [x for x, _ in R.find(f["body"], lambda x: x.get("k") == "Return")]
+            rep.count("obligations:V6")
+            p = R.poly_of(rets[0]["e"], lambda a: a.replace("this.center_", "center_").replace("size()", "this.size()").replace("this.this.", "this.")) if len(rets) == 1 else None
+            k = "V6:kernel_%s_adaptor<%s>::%s()%s" % (m.group(1), core, short, " const" if f.get("const") else "")
+            if p is not None and p == want[short]:
+                rep.ok("V6-kernel-2d", k, repr(p))
+            else:
+                rep.violation("V6-kernel-2d", k, R.fn_where(f), {"returns": repr(p), "documented": repr(want[short])})
+        if m.group(1) == "2d" and short == "kernel_2d_adaptor" and f.get("inits") is not None:
+            ci = [R.key(i["init"]) for i in f["inits"] if i.get("member") == "center_"]
+            pn = [q["name"] for q in f["params"]]
+            rep.count("obligations:V6")
+            if pn == ["other"]:
+                w, k = "point{other.center_.x,other.center_.y}", "V6:kernel_2d_adaptor<%s>::copy constructor" % core
+            else:
+                w, k = "point{center_x,center_y}", "V6:kernel_2d_adaptor<%s>::constructor(%s)" % (core, ",".join(pn))
+            if ci == [w] and (pn == ["other"] or pn[-2:] == ["center_y", "center_x"]):
+                rep.ok("V6-kernel-2d", k, ci)
+            else:
+                rep.violation("V6-kernel-2d", k, R.fn_where(f), {"center_ initialised with": ci, "expected": w, "parameters": pn})
+        if m.group(1) == "2d" and short == "operator=":
+            asg = sorted(R.key(x) for x, _ in R.find(f["body"], lambda x: x.get("k") == "Assign"))
+            rep.count("obligations:V6")
+            k = "V6:kernel_2d_adaptor<%s>::operator=" % core
+            if asg == sorted(["(center_.y = other.center_.y)", "(center_.x = other.center_.x)", "(square_size = other.square_size)"]):
+                rep.ok("V6-kernel-2d", k, asg)
+            else:
+                rep.violation("V6-kernel-2d", k, R.fn_where(f), {"assignments": asg})
+    rep.floor("obligations:V6", 14)
 
 
 def accumulator_rule(rep, fns):
